@@ -240,7 +240,7 @@ func blockSite(c *Ctx, rule string, fn *ssa.Function, ci ssa.CallInstruction, sr
 	if flow.Implies(pc, mult) {
 		c.Run.OK(rule, key+"/multiple-of-16", pos, "len(payload|MIC) % 16 == 0 on the path", mult.String(), true)
 	} else {
-		c.Run.Bad(rule, key+"/multiple-of-16", pos, "len(payload|MIC) % 16 == 0 is checked before the block loop", "path condition: "+short(pc.String()))
+		c.Run.Bad(rule, key+"/multiple-of-16", pos, "len(payload|MIC) % 16 == 0 is checked before the block loop", "path condition: "+short(pc.Pretty()))
 	}
 	bound := false
 	for a, t := range pc.Atoms() {
@@ -256,7 +256,7 @@ func blockSite(c *Ctx, rule string, fn *ssa.Function, ci ssa.CallInstruction, sr
 	if bound {
 		c.Run.OK(rule, key+"/bound", pos, "loop bound len/16", "i < len/16", true)
 	} else {
-		c.Run.Unknown(rule, key+"/bound", pos, "loop bound len/16", short(pc.String()))
+		c.Run.Unknown(rule, key+"/bound", pos, "loop bound len/16", short(pc.Pretty()))
 	}
 	// outputs: MIC = last four bytes of the output
 	ei := errIndex(fn)
@@ -353,7 +353,7 @@ func flowC11(c *Ctx) {
 				}
 			}
 			if okRes {
-				c.Run.OK(r3, key+"/result", fpos(c, fn), "result ≡ "+want.String(), short(res.String()), true)
+				c.Run.OK(r3, key+"/result", fpos(c, fn), "result ≡ "+want.String(), short(res.Pretty()), true)
 			} else {
 				cmpLike := true
 				for _, t := range res.Atoms() {
@@ -362,9 +362,9 @@ func flowC11(c *Ctx) {
 					}
 				}
 				if cmpLike {
-					c.Run.Bad(r3, key+"/result", fpos(c, fn), "result ≡ "+want.String()+" (all four bytes: type prefix, NwkID and untouched NwkAddr)", short(res.String()))
+					c.Run.Bad(r3, key+"/result", fpos(c, fn), "result ≡ "+want.String()+" (all four bytes: type prefix, NwkID and untouched NwkAddr)", short(res.Pretty()))
 				} else {
-					c.Run.Unknown(r3, key+"/result", fpos(c, fn), "result ≡ "+want.String(), short(res.String()))
+					c.Run.Unknown(r3, key+"/result", fpos(c, fn), "result ≡ "+want.String(), short(res.Pretty()))
 				}
 			}
 		}
@@ -424,7 +424,8 @@ func codecRules(c *Ctx, rule, T string, N int64) {
 		e := flow.For(fn)
 		in := flow.Call("strings.TrimPrefix", flow.Conv("string", flow.Param(1)), flow.ConstString("0x"))
 		dec := flow.Call("encoding/hex.DecodeString", in)
-		if s, ok := oneSite(c, rule, key+"/call:hex.DecodeString", fn, "encoding/hex.DecodeString"); ok {
+		if ss := flow.Calls(fn, flow.Named("encoding/hex.DecodeString")); len(ss) == 1 {
+			s := ss[0]
 			checkTerm(c, rule, key+"/input", ipos(c, s.Instr), "input of hex.DecodeString (one 0x prefix trimmed)", s.Args[0], in)
 			lengthGuardedCopy(c, rule, fn, flow.Extract(dec, 0), N, flow.FTrue())
 		} else {
@@ -504,7 +505,7 @@ func lengthGuardedCopy(c *Ctx, rule string, fn *ssa.Function, src *flow.Term, N 
 		rk := fmt.Sprintf("%s/success#%d", fnKey(fn), n)
 		pc := e.PathCond(r.Block(), nil)
 		if flow.Implies(pc, flow.FAnd(lenEq, pre)) {
-			c.Run.OK(rule, rk+"/length", ipos(c, r), "success implies "+lenEq.String(), short(pc.String()), true)
+			c.Run.OK(rule, rk+"/length", ipos(c, r), "success implies "+lenEq.String(), short(pc.Pretty()), true)
 		} else {
 			c.Run.Bad(rule, rk+"/length", ipos(c, r), "success implies "+flow.FAnd(lenEq, pre).String()+" (wrong-length input is rejected)", describeLengthGuard(pc, N))
 		}
@@ -556,7 +557,7 @@ func lengthGuardFallback(c *Ctx, rule string, fn *ssa.Function, N int64) {
 		case relational || len(flow.Calls(fn, func(s string) bool { return strings.HasPrefix(s, "lorawan.") || strings.HasPrefix(s, "(lorawan.") || strings.HasPrefix(s, "(*lorawan.") })) == 0:
 			c.Run.Bad(rule, rk, ipos(c, r), fmt.Sprintf("success implies decoded length == %d (wrong-length input is rejected)", N), describeLengthGuard(pc, N))
 		default:
-			c.Run.Unknown(rule, rk, ipos(c, r), fmt.Sprintf("success implies decoded length == %d", N), short(pc.String()))
+			c.Run.Unknown(rule, rk, ipos(c, r), fmt.Sprintf("success implies decoded length == %d", N), short(pc.Pretty()))
 		}
 	}
 	if n == 0 {
@@ -571,7 +572,7 @@ func describeLengthGuard(pc *flow.Formula, N int64) string {
 			rel = append(rel, a)
 		}
 	}
-	s := "the successful return is reachable under " + short(pc.String())
+	s := "the successful return is reachable under " + short(pc.Pretty())
 	if len(rel) > 0 {
 		s += "; only an ordering test (" + strings.Join(rel, ", ") + ") guards the length, so a shorter input is accepted and leaves stale bytes"
 	} else {
